@@ -367,4 +367,58 @@ theorem nodup_keys_append {a b : List (Nat × Nat)} (ha : (keys a).Nodup) (hb : 
   rw [keys_append, List.nodup_append]
   exact ⟨ha, hb, fun x hx y hy e => hd x hx (e ▸ hy)⟩
 
+/-! ### generic facts for the array-backed policies (SIEVE, Clock) -/
+
+theorem perm_eraseIdx {α} {l : List α} {i : Nat} {e : α} (h : l[i]? = some e) :
+    l.Perm (e :: l.eraseIdx i) := by
+  induction l generalizing i with
+  | nil => simp at h
+  | cons a l ih =>
+    cases i with
+    | zero => simp at h; subst h; simp
+    | succ i =>
+      simp at h
+      simp only [List.eraseIdx_cons_succ]
+      exact ((ih h).cons a).trans (List.Perm.swap _ _ _)
+
+theorem map_set_same {α β} {f : α → β} {l : List α} {i : Nat} {e e' : α} (h : l[i]? = some e)
+    (hf : f e' = f e) : (l.set i e').map f = l.map f := by
+  induction l generalizing i with
+  | nil => simp
+  | cons a l ih =>
+    cases i with
+    | zero => simp at h; subst h; simp [hf]
+    | succ i => simp at h; simp [ih h]
+
+theorem without_map {α} (f : α → Nat × Nat) (l : List α) (k : Nat) :
+    LruList.without (l.map f) k = (l.filter (fun e => (f e).1 != k)).map f := by
+  simp only [LruList.without, List.filter_map]; rfl
+
+theorem AdmitOk.of_perm {t t' t'' : List (Nat × Nat)} {k : Nat} {v : List Nat} (h : AdmitOk t t' k v)
+    (hp : t''.Perm t') : AdmitOk t t'' k v :=
+  ⟨fun p hpk => hp.mem_iff.trans (h.others p hpk), (keys_perm hp).mem_iff.trans h.self,
+    h.victims_tracked⟩
+
+theorem AdmitOk.of_append_new {t : List (Nat × Nat)} {k : Nat} (hk : k ∉ keys t) (c : Nat) :
+    AdmitOk t (t ++ [(k, c)]) k [] := by
+  have := AdmitOk.of_push t k c
+  rw [without_eq_self hk] at this
+  exact this.of_perm (List.perm_append_comm (l₂ := [(k, c)]))
+
+theorem RemoveOk.of_perm_cons {t t' : List (Nat × Nat)} {k c : Nat} (hnd : (keys t).Nodup)
+    (hp : t.Perm ((k, c) :: t')) : RemoveOk t t' k := by
+  have hnd' := (keys_perm hp).nodup_iff.1 hnd
+  simp only [keys_cons, List.nodup_cons] at hnd'
+  intro p
+  constructor
+  · intro h
+    exact ⟨hp.mem_iff.2 (List.mem_cons_of_mem _ h), fun e => hnd'.1 (e ▸ mem_keys_of_mem h)⟩
+  · rintro ⟨h1, h2⟩
+    rcases List.mem_cons.1 (hp.mem_iff.1 h1) with rfl | h
+    · exact absurd rfl h2
+    · exact h
+
+theorem RemoveOk.of_not_mem {t : List (Nat × Nat)} {k : Nat} (hk : k ∉ keys t) : RemoveOk t t k :=
+  fun _ => ⟨fun h => ⟨h, fun e => hk (e ▸ mem_keys_of_mem h)⟩, fun h => h.1⟩
+
 end Fv.Cache.Policy
